@@ -180,14 +180,18 @@ class Problem:
             self.c1_kind = "const"
         self.q_tv = bool(rng.random() < 0.75)            # Q, p per step, or time-invariant (tiled by LQR)
         d = self.dtype
+        # ---- units of the signals: the linear cost term, the affine drift and the initial state scale together, so the
+        # optimal inputs scale by the same factor (micro-units / large units; every tolerance below is relative)
+        self.units = float(force.get("units", rng.choice([1.0, 1.0, 1.0, 1e-6, 1e5])))
+        un = self.units
         # ---- cost
         qs = 10 ** rng.uniform(-1, 1)
         if self.q_tv:
             Q = np.stack([[gen.spd(rng, N, cond=self.kappa, scale=qs) for _ in range(T)] for _ in range(B)])
-            p = rng.standard_normal((B, T, N)) * qs
+            p = rng.standard_normal((B, T, N)) * qs * un
         else:
             Q = np.stack([gen.spd(rng, N, cond=self.kappa, scale=qs) for _ in range(B)])
-            p = rng.standard_normal((B, N)) * qs
+            p = rng.standard_normal((B, N)) * qs * un
         self.tQ, self.tp = tt(Q, d), tt(p, d)
         self.tQ = 0.5 * (self.tQ + self.tQ.mT)           # exactly symmetric after rounding to the dtype
         Qr, pr = f64(self.tQ), f64(self.tp)
@@ -203,7 +207,7 @@ class Problem:
             Bm = rng.standard_normal(bs + (ns, nc))
             self.tA, self.tB = tt(A, d), tt(Bm, d)
             if self.c1_kind != "none":
-                c1v = tt(rng.standard_normal((B, ns) if rng.random() < 0.7 or bs else (ns,)), d)
+                c1v = tt(rng.standard_normal((B, ns) if rng.random() < 0.7 or bs else (ns,)) * un, d)
             self.make = lambda: pp.module.LTI(self.tA, self.tB, eye, zer, c1v, None)
             Ar = np.broadcast_to(f64(self.tA), (B, ns, ns))
             Br = np.broadcast_to(f64(self.tB), (B, ns, nc))
@@ -219,7 +223,7 @@ class Problem:
             self.tA, self.tB = tt(A, d), tt(Bm, d)
             tv = self.c1_kind == "tv"
             if self.c1_kind != "none":
-                c1v = tt(rng.standard_normal((B, P, ns) if tv else (B, ns)), d)
+                c1v = tt(rng.standard_normal((B, P, ns) if tv else (B, ns)) * un, d)
             self.make = lambda: IdxLTV(self.tA, self.tB, eye, zer, c1v, P, tv)
             idx = np.arange(T) % P
             self.Aref, self.Bref = f64(self.tA)[:, idx], f64(self.tB)[:, idx]
@@ -231,13 +235,13 @@ class Problem:
             Bm = rng.standard_normal((B, ns, nc))
             self.tA, self.tA1, self.tB = tt(A0, d), tt(A1, d), tt(Bm, d)
             if self.c1_kind != "none":
-                c1v = tt(rng.standard_normal((B, ns)), d)
+                c1v = tt(rng.standard_normal((B, ns)) * un, d)
             self.make = lambda: FuncLTV(self.tA, self.tA1, self.tB, eye, zer, c1v, w)
             ts = np.arange(T, dtype=np.float64)
             self.Aref = f64(self.tA)[:, None] + f64(self.tA1)[:, None] * np.cos(w * ts)[None, :, None, None]
             self.Bref = f64(self.tB)[:, None] * (1 + 0.25 * np.sin(w * ts))[None, :, None, None]
             self.c1ref = np.zeros((B, T, ns)) if c1v is None else np.repeat(f64(c1v)[:, None], T, axis=1)
-        self.x_scale = float(rng.choice([0.1, 1.0, 3.0]))
+        self.x_scale = float(rng.choice([0.1, 1.0, 3.0])) * un
         self._dense = {}
 
     def ltv(self):
@@ -254,7 +258,7 @@ class Problem:
 
     def describe(self):
         return {"family": self.family, "dtype": self.dn, "B": self.B, "T": self.T, "n_state": self.ns, "n_ctrl": self.nc,
-                "rho": self.rho, "kappa": self.kappa, "c1": self.c1_kind, "Q_per_step": self.q_tv, "P": getattr(self, "P", None)}
+                "rho": self.rho, "kappa": self.kappa, "units": self.units, "c1": self.c1_kind, "Q_per_step": self.q_tv, "P": getattr(self, "P", None)}
 
 
 # ----------------------------------------------------------------------------- the KKT monitor
@@ -361,10 +365,10 @@ def nominal(rng, prob, kind):
         return None
     if kind == "zeros":
         return torch.zeros(prob.B, prob.T, prob.nc, dtype=prob.dtype)
-    mag = 1.0 if kind == "rand" else 10.0
+    mag = (1.0 if kind == "rand" else 10.0) * prob.units
     if kind == "hold":
         # hold-input nominal: one input per batch item expanded over the horizon (time steps share memory)
-        return tt(rng.standard_normal((prob.B, 1, prob.nc)), prob.dtype).expand(prob.B, prob.T, prob.nc)
+        return tt(rng.standard_normal((prob.B, 1, prob.nc)) * prob.units, prob.dtype).expand(prob.B, prob.T, prob.nc)
     return tt(rng.standard_normal((prob.B, prob.T, prob.nc)) * mag, prob.dtype)
 
 
@@ -384,6 +388,7 @@ def marks_for(ck, prob):
         ck.mark("kappa>=1e5")
     if prob.rho > 1:
         ck.mark("rho>1")
+    ck.mark("units/%g" % prob.units)
     ck.mark("c1/" + prob.c1_kind)
     ck.mark("Q/per-step" if prob.q_tv else "Q/time-invariant")
     if prob.family == "LTV-idx":
@@ -398,6 +403,7 @@ def run_lqr_problem(ck, rng, prob, pid):
     x_init = prob.new_x_init(rng)
     seen = {}
     kept_ut = None
+    last_U = None
     first_disturbed = rng.random() < 0.5
     for j in range(n_solves):
         hist = "first" if j == 0 else "repeat"
@@ -420,12 +426,17 @@ def run_lqr_problem(ck, rng, prob, pid):
         if uk == "hold":
             ck.mark("solve/expanded-u_traj")
         ut = nominal(rng, prob, uk)
-        if j > 0 and kept_ut is not None and kept_ut.is_contiguous() and rng.random() < 0.5:
+        if j > 0 and last_U is not None and rng.random() < 0.3:
+            # warm start: the previous solution (of this or of the previous initial state), perturbed in its last digits
+            ut = (last_U * tt(1 + 1e-6 * rng.standard_normal(tuple(last_U.shape)), prob.dtype)).contiguous()
+            uk = "warm-start-from-previous-solution"
+            ck.mark("solve/warm-start")
+        elif j > 0 and kept_ut is not None and kept_ut.is_contiguous() and rng.random() < 0.5:
             # receding-horizon style history: the SAME nominal tensor object as in the previous solve, updated in place
             # (shifted and refilled) in between - the solve must depend on its current contents only
             with torch.no_grad():
                 kept_ut[:, :-1] = kept_ut[:, 1:].clone()
-                kept_ut[:, -1] = tt(rng.standard_normal((prob.B, prob.nc)), prob.dtype)
+                kept_ut[:, -1] = tt(rng.standard_normal((prob.B, prob.nc)) * prob.units, prob.dtype)
             ut, uk = kept_ut, "same-tensor-updated-in-place"
             ck.mark("solve/same-u_traj-object-updated-in-place")
         kept_ut = ut if (ut is not None and ut.is_contiguous()) else kept_ut
@@ -441,6 +452,7 @@ def run_lqr_problem(ck, rng, prob, pid):
         if not okc or not shapes_ok(ck, "lqr_start", regime, "LQR", prob, out):
             continue
         X, Uo, Co = f64(out[0]), f64(out[1]), f64(out[2]).reshape(-1)
+        last_U = out[1].detach().clone()
         x0 = f64(x_init)
         for b in range(prob.B):
             r = check_solution(ck, rng, prob, b, X[b], Uo[b], Co[b], x0[b], regime, "LQR", (pid, j, b), "lqr_")
@@ -682,7 +694,7 @@ def run(ck):
         run_mpc_nls(ck, rng, "f64" if i % 2 == 0 else "f32", (ck.shard, pid))
 
     ck.require("solve/second-on-same-object", "solve/second-on-same-object/LTV", "solve/systime!=0-before-first",
-               "solve/nonzero-u_traj", "solve/expanded-u_traj", "solve/same-u_traj-object-updated-in-place", "family/LTI", "family/LTI-shared", "family/LTV-idx", "family/LTV-func",
+               "solve/nonzero-u_traj", "solve/warm-start", "units/1", "units/1e-06", "units/100000", "solve/expanded-u_traj", "solve/same-u_traj-object-updated-in-place", "family/LTI", "family/LTI-shared", "family/LTV-idx", "family/LTV-func",
                "dtype/f64", "dtype/f32", "B=1", "B=2", "B=3", "T=1", "T=2", "T=20",
                "n_state=1/T>=2/B>=2", "n_state=1/T>=2/unbatched-A", "n_state==n_ctrl", "kappa>=1e5", "rho>1",
                "c1/none", "c1/const", "c1/tv", "Q/per-step", "Q/time-invariant", "LTV-idx/period<T", "LTV-idx/period>=T",
